@@ -316,7 +316,7 @@ def container_bytes(c):
 
 # ----------------------------------------------------------------------------- growth of the work with the input size
 SCALE_FAMILIES = ["cdda_same_title", "cdda_distinct", "akai_same_name", "akai_distinct", "akai_chain", "akai_pairs", "akai_volumes",
-                  "roland_same_name", "roland_distinct", "cue_rem_lines"]
+                  "roland_same_name", "roland_distinct", "cue_rem_lines", "roland_fat_down", "roland_fat_zigzag"]
 
 
 def scale_input(family, n, d):
@@ -351,8 +351,21 @@ def scale_input(family, n, d):
             files = [{"name": nm(i), "n": 20, "chain": [3 + dsec + i], "seq": 1 + i % 40} for i in range(min(n, 500))]
             vols = [{"name": "VOL", "dir": list(range(3, 3 + dsec)), "files": files}]
         return A.build_akai(A.model_from_spec({"parts": [{"vols": vols}]}))[0]
-    # roland: n samples in one performance (4 per partial)
     from mcv.gen import roland as R
+    if family.startswith("roland_fat"):
+        # a chain of 10 n clusters that belongs to no file, written into free cells of the FAT of a small image: its head is the
+        # HIGHEST cluster (down) / it alternates between the two ends of its region (zigzag)
+        import struct
+        b = bytearray(subject("roland")[0])
+        L, lo = 10 * n, 200
+        cells = [lo + L - 1 - k for k in range(L)]
+        if family == "roland_fat_zigzag":
+            cells = [lo + (L - 1 - k // 2 if k % 2 == 0 else k // 2) for k in range(L)]
+        for a, nxt in zip(cells, cells[1:]):
+            struct.pack_into("<H", b, R.FAT_OFF + 2 * a, nxt)
+        struct.pack_into("<H", b, R.FAT_OFF + 2 * cells[-1], 0xFFF8)
+        return bytes(b)
+    # roland: n samples in one performance (4 per partial)
     samples = {i: {"name": ("SAME" if family == "roland_same_name" else "S%05d" % i), "chain": [2 + i], "points": [0, 0, 20, 0, 9],
                    "mode": 0, "seq": 1 + i % 40} for i in range(n)}
     partials = {k // 4: {"name": "P%03d" % (k // 4), "samples": list(range(k, min(n, k + 4)))} for k in range(0, n, 4)}
@@ -453,9 +466,9 @@ class Check(CheckBase):
             "version, MDX cut in the middle, MODE1/2352 images cut at 10 odd lengths; thorough: ALL PAIRS of table faults (AKAI SAT x SAT, Roland FAT x FAT) and "
             "all pairs (table fault, pointer/entry fault). Every run = ls at the root and at every reachable node + export, "
             "under an 8 s CPU budget (clean run: 0.03-0.3 s) and an address-space limit (min(6 GiB, 60 % of RAM / workers)), and the bytes "
-            "written by export must stay below 4 x the input size + 1 MiB; (growth) 10 input families whose size "
+            "written by export must stay below 4 x the input size + 1 MiB; (growth) 12 input families whose size "
             "grows linearly with n (n CDDA tracks with one / distinct titles, n AKAI files with one / distinct names, n/2 L/R pairs, "
-            "n volumes, one file of n sectors, n Roland samples with one / distinct names, 20n comment lines) run at n and 2n "
+            "n volumes, one file of n sectors, n Roland samples with one / distinct names, 20n comment lines, a Roland FAT chain of 10n clusters that descends / zigzags) run at n and 2n "
             "(n=60; thorough also 150) under a line counter: no function of the tool may execute more than 3x the lines at 2n "
             "(linear work doubles, quadratic work quadruples) -- deterministic, no clock involved. non-trivial = fault that changes "
             "the outcome class")
